@@ -16,6 +16,19 @@ CHECKS = {
         ref="5 C19", technique="Coq theorems by induction on the step list; in-Coq differential check model vs crate",
         note="Trusted: Coq kernel + vm_compute, hand-written model Pointer.v (tied by the correspondence on the inputs of each run), "
              "harness and Python emitter. No axioms (Print Assumptions: closed under the global context)."),
+    "C17": dict(
+        text="Proof: describe l = spec_describe l for every list of kinds (any length, any multiplicity) and describe depends on membership only; "
+             "proved via sort+dedup = filter over the 8 kinds (uniqueness of strictly sorted lists) and a finite check of the 256 membership tables "
+             "lifted by forallb_forall. Correspondence of the model with value_kinds_description_json on all 37449 sequences of length <= 5, exhaustively, every run.",
+        ref="5 C17", technique="Coq theorem (structural lemmas + finite-domain vm_compute lifted with forallb_forall); exhaustive in-Coq differential check",
+        note="Trusted: Coq kernel + vm_compute, model Kinds.v (sort_by_key modelled as insertion sort: the result of a stable sort is unique), harness, emitter. No axioms."),
+    "C18": dict(
+        text="Proof: for an arbitrary distance function, did_you_mean is empty iff the received string has <= 3 bytes or no accepted string is within the budget "
+             "table, and otherwise names the earliest accepted string of minimal distance (decomposition acc = pre ++ a :: post with strict/weak minimality). "
+             "Correspondence with errors::helpers::did_you_mean (strsim's Damerau-Levenshtein modelled by a Gallina port) on all pairs over a 3-letter alphabet "
+             "up to length 5 (quick) / 6 (thorough) plus random multi-candidate lists.",
+        ref="5 C18", technique="Coq theorems parametric in the distance (Section variable); exhaustive + random in-Coq differential check",
+        note="Trusted: Coq kernel + vm_compute, model DidYouMean.v; strsim is modelled and tied by correspondence only (partial: distance = strsim by correspondence). No axioms."),
 }
 
 NOT_YET = {}
